@@ -386,4 +386,107 @@ theorem numbered_comment_block_attach (pre post block : List Str) (stmt : Str)
   simp only [run, hstep]
   cases run { st' with comment := none, pending := none } post <;> simp [Except.map]
 
+theorem step_openLine (st : St) (l t : Str) (hB : st.atBoundary = true) (hml : st.mlComment = false) (h : openLine (strip l) = some t) :
+    step st l = .ok ({ st with mlComment := true, comment := some t }, []) := by
+  simp only [St.atBoundary, Bool.and_eq_true, Option.isNone_iff_eq_none] at hB
+  unfold openLine at h
+  simp only [] at h
+  split at h
+  · rename_i hc
+    simp only [Bool.and_eq_true, Bool.not_eq_true', List.isEmpty_eq_false_iff] at hc
+    obtain ⟨⟨⟨⟨h1, h2⟩, h3⟩, h4⟩, h5⟩ := hc
+    injection h with h
+    unfold step stepV
+    simp [hB.1, hB.2, h1, h2, h3, h4, hml, h]
+    intro h6
+    simpa [h6] using h5
+  · cases h
+
+theorem step_midLine (st : St) (l c p : Str) (hB : st.atBoundary = true) (hml : st.mlComment = true) (hc : st.comment = some c)
+    (h : midLine (strip l) = some p) :
+    step st l = .ok ({ st with comment := some (c ++ '\n' :: p) }, []) := by
+  simp only [St.atBoundary, Bool.and_eq_true, Option.isNone_iff_eq_none] at hB
+  unfold midLine at h
+  simp only [] at h
+  split at h
+  · rename_i hcnd
+    simp only [Bool.and_eq_true, Bool.not_eq_true', List.isEmpty_eq_false_iff] at hcnd
+    obtain ⟨⟨⟨h1, h2⟩, h3⟩, h4⟩ := hcnd
+    injection h with h
+    subst h
+    unfold step stepV
+    simp [hB.1, hB.2, h1, h2, h3, h4, hml, hc]
+  · cases h
+
+theorem step_closeLine (st : St) (l c t : Str) (hB : st.atBoundary = true) (hml : st.mlComment = true) (hc : st.comment = some c)
+    (h : closeLine (strip l) = some t) :
+    step st l = .ok ({ st with mlComment := false, comment := some (c ++ '\n' :: t) }, []) := by
+  simp only [St.atBoundary, Bool.and_eq_true, Option.isNone_iff_eq_none] at hB
+  unfold closeLine at h
+  simp only [] at h
+  split at h
+  · rename_i hcnd
+    simp only [Bool.and_eq_true, Bool.not_eq_true', List.isEmpty_eq_false_iff] at hcnd
+    obtain ⟨⟨⟨h1, h2⟩, h3⟩, h4⟩ := hcnd
+    injection h with h
+    unfold step stepV
+    simp [hB.1, hB.2, h1, h2, h3, h4, hml, hc, h]
+  · cases h
+
+theorem runPre_append (a b : List Str) : ∀ st : St,
+    runPre st (a ++ b) =
+      match runPre st a with
+      | .error e => .error e
+      | .ok (s1, o1) =>
+        match runPre s1 b with
+        | .error e => .error e
+        | .ok (s2, o2) => .ok (s2, o1 ++ o2) := by
+  induction a with
+  | nil => intro st; simp only [List.nil_append, runPre]; cases runPre st b <;> simp
+  | cons l ls ih =>
+    intro st
+    simp only [List.cons_append, runPre]
+    cases step st l with
+    | error e => rfl
+    | ok p =>
+      simp only [ih p.1]
+      cases runPre p.1 ls with
+      | error e => rfl
+      | ok q =>
+        simp only []
+        cases runPre q.1 b with
+        | error e => rfl
+        | ok r => simp [List.append_assoc]
+
+theorem runPre_mids (mids : List Str) (h : ∀ l ∈ mids, strip l = [] ∨ ∃ p, midLine (strip l) = some p) : ∀ (st : St) (c : Str),
+    st.atBoundary = true → st.mlComment = true → st.comment = some c →
+    runPre st mids = .ok ({ st with comment := some (blockBody c mids) }, []) := by
+  induction mids with
+  | nil => intro st c _ _ hc; simp [runPre, blockBody, ← hc]
+  | cons l ls ih =>
+    intro st c hB hml hc
+    have ih' := ih (fun x hx => h x (by simp [hx]))
+    rcases h l (by simp) with hb | ⟨p, hp⟩
+    · simp only [runPre, step_blank st l hb hB]
+      rw [ih' st c hB hml hc]
+      simp [blockBody, hb, midLine]
+    · have hB1 : ({ st with comment := some (c ++ '\n' :: p) } : St).atBoundary = true := by simpa [St.atBoundary] using hB
+      simp only [runPre, step_midLine st l c p hB hml hc hp]
+      rw [ih' _ (c ++ '\n' :: p) hB1 hml rfl]
+      simp [blockBody, hp]
+
+/-- a whole multi-line `\"\"\"` comment block: opener, middle lines (blank lines anywhere among them), closer -/
+theorem runPre_mlBlock (st : St) (openL closeL t u : Str) (mids : List Str)
+    (hB : st.atBoundary = true) (hml : st.mlComment = false)
+    (ho : openLine (strip openL) = some t) (hm : ∀ l ∈ mids, strip l = [] ∨ ∃ p, midLine (strip l) = some p)
+    (hc : closeLine (strip closeL) = some u) :
+    runPre st (openL :: (mids ++ [closeL])) =
+      .ok ({ st with mlComment := false, comment := some (blockBody t mids ++ '\n' :: u) }, []) := by
+  have hB1 : ({ st with mlComment := true, comment := some t } : St).atBoundary = true := by simpa [St.atBoundary] using hB
+  have hB2 : ({ st with mlComment := true, comment := some (blockBody t mids) } : St).atBoundary = true := by simpa [St.atBoundary] using hB
+  simp only [runPre, step_openLine st openL t hB hml ho]
+  rw [runPre_append, runPre_mids mids hm _ t hB1 rfl rfl]
+  simp only [runPre, step_closeLine _ closeL (blockBody t mids) u hB2 rfl rfl hc]
+  simp
+
 end NemoVerif.NumberedLines
